@@ -42,6 +42,9 @@ type guardRef struct {
 	mutexID *Term
 	field   string
 	rw      bool
+	owner   *Term      // object holding the protected field
+	ownerT  types.Type // its struct type
+	fieldIx int
 }
 
 type AddrKind int
